@@ -52,15 +52,41 @@ pub struct ChanScenario {
     pub batch: Option<u64>,
     #[serde(default, skip_serializing_if = "Option::is_none")]
     pub seqs: Option<Vec<Seq>>,
+    /// Whole-task probes (explicit form only; the batch form derives them from the seed).
+    #[serde(default, skip_serializing_if = "Option::is_none")]
+    pub tasks: Option<Vec<TaskProbe>>,
+}
+
+/// One task that owns both halves of a channel and is run through the product's `RunWithBudget` wrapper, as every
+/// agent, remote and downlink task of the server is: it writes `chunks` (sizes) and shuts down, reads everything back
+/// in reads of `read` bytes. Whatever the budget, the task must finish: a coop budget may make it yield, never stall it.
+#[derive(Serialize, Deserialize, Clone, Debug, PartialEq, Eq)]
+pub struct TaskProbe {
+    pub budget: usize,
+    pub cap: usize,
+    pub chunks: Vec<usize>,
+    pub read: usize,
+}
+
+pub const TASKS_PER_BATCH: u64 = 4;
+
+pub fn gen_task(seed: u64, idx: u64) -> TaskProbe {
+    let mut rng = Rng::new(mix(seed, "chan-task", idx));
+    TaskProbe {
+        budget: rng.range(1, 5) as usize,
+        cap: rng.range(1, 9) as usize,
+        chunks: (0..rng.range(1, 4)).map(|_| rng.range(1, 12) as usize).collect(),
+        read: rng.range(1, 12) as usize,
+    }
 }
 
 impl ChanScenario {
     pub fn batch(seed: u64, batch: u64) -> ChanScenario {
-        ChanScenario { seed: Some(seed), batch: Some(batch), seqs: None }
+        ChanScenario { seed: Some(seed), batch: Some(batch), seqs: None, tasks: None }
     }
 
     pub fn explicit(seqs: Vec<Seq>) -> ChanScenario {
-        ChanScenario { seed: None, batch: None, seqs: Some(seqs) }
+        ChanScenario { seed: None, batch: None, seqs: Some(seqs), tasks: None }
     }
 
     /// Number of sequences.
@@ -75,6 +101,15 @@ impl ChanScenario {
                 Ok(n as usize)
             }
             (None, None) => Err("neither seqs nor seed given".to_string()),
+        }
+    }
+
+    /// The whole-task probes of this scenario.
+    pub fn task_probes(&self) -> Vec<TaskProbe> {
+        match (&self.tasks, &self.seqs, self.seed) {
+            (Some(t), _, _) => t.clone(),
+            (None, None, Some(seed)) => (0..TASKS_PER_BATCH).map(|i| gen_task(seed, i)).collect(),
+            _ => vec![],
         }
     }
 
@@ -227,6 +262,43 @@ pub fn shrink(sc: &ChanScenario) -> Vec<ChanScenario> {
     let Ok(seqs) = sc.sequences() else {
         return vec![];
     };
+    let probes = sc.task_probes();
+    if !probes.is_empty() {
+        // Every probe on its own first (simplest), then the sequences without probes.
+        let mut out: Vec<ChanScenario> = vec![];
+        if probes.len() > 1 || !seqs.is_empty() {
+            for p in probes.iter() {
+                out.push(ChanScenario { seed: None, batch: None, seqs: Some(vec![]), tasks: Some(vec![p.clone()]) });
+            }
+            out.push(ChanScenario { seed: None, batch: None, seqs: Some(seqs), tasks: None });
+            return out;
+        }
+        let p = &probes[0];
+        let mut push = |q: TaskProbe| out.push(ChanScenario { seed: None, batch: None, seqs: Some(vec![]), tasks: Some(vec![q]) });
+        if p.chunks.len() > 1 {
+            let mut q = p.clone();
+            q.chunks.pop();
+            push(q);
+        }
+        for i in 0..p.chunks.len() {
+            if p.chunks[i] > 1 {
+                let mut q = p.clone();
+                q.chunks[i] = 1;
+                push(q);
+            }
+        }
+        if p.read > 1 {
+            let mut q = p.clone();
+            q.read = 1;
+            push(q);
+        }
+        if p.cap != 8 {
+            let mut q = p.clone();
+            q.cap = 8;
+            push(q);
+        }
+        return out;
+    }
     if sc.seqs.is_none() || seqs.len() > 1 {
         return seqs.into_iter().map(single).collect();
     }
